@@ -8,7 +8,8 @@ CONSTANTS
   ABORTS = FALSE
   RESETONERR = TRUE
   EOMCTX = TRUE
+  KEEPOPEN = TRUE
   GEN = FALSE
-INVARIANTS C01_Messages C01_AllButLastFull C01_NothingLeftBehind C01_SizeBound
+INVARIANTS C01_Messages C01_AllButLastFull C01_NothingLeftBehind C01_SizeBound C01_FlushTerminates
 VIEW View
 CHECK_DEADLOCK FALSE
